@@ -294,6 +294,7 @@ def main(argv=None):
 
     # ---- extra sub-checks (direct solver lemmas, cross-checks)
     extra = {}
+    loader_mod.CURRENT_PATCHES = patches
     if hasattr(H, "extra"):
         try:
             extra = H.extra(args.tier, seed, deadline) or {}
